@@ -10,6 +10,11 @@ CHECKS = {
         text="Round trip, every single flip and every double flip (symbolic one-/two-hot masks over all code bits, every lane, other lanes arbitrary), byte-enable widening and the granularity flag are postconditions of the real LiteDRAMNativePortECCW/ECCR proved for all inputs; counters, sticky flags and pipeline of LiteDRAMNativePortECC proved by induction against reference instances of those modules.",
         note="Lane widths 8/16/32/64 x 8 lanes enumerated. CSR software writes are free inputs; CSR shims in the harness process. rdata words presented one cycle each.",
     ),
+    "C03": dict(
+        engine="HWVC", category="proof", technique="contract-based deductive verification: inductive invariants linking the real timers to ghost DRAM-clock ages (BankMachine) and finite-window obligations from arbitrary invariant states on the real LiteDRAMController (z3)",
+        text="Requirements are given in DRAM clocks with phase positions; the controller is configured with the smallest cycle counts C16's postcondition allows. BankMachine: tRCD/tRP/tRAS/tRC/write-recovery for explicit, auto- and refresh precharge as postconditions over ghost ages for every steering phase (inductive). Controller: tCCD, tRRD, tFAW, tWTR, tRP-before-REF/ZQCS, tRFC, tZQCS and the per-bank spacings with the real steering phases as window obligations proved from ANY state satisfying the (proved) C02 invariants, i.e. for unbounded time and all schedules.",
+        note="Per configuration (requirement tuples chosen so each constraint binds; list in evidence). Auto-precharge by its weakest reading; tRTP not in the property's list. The link cycles->ns is C16's postcondition.",
+    ),
     "C06": dict(
         engine="HWVC", category="proof", technique="contract-based deductive verification: combinational validity (z3) of layout/bijection postconditions on the expression trees returned by the real address-mapping functions, per geometry",
         text="For each geometry the expressions produced by the real get_bank_address/get_row_column_address/_AddressSlicer and the real crossbar routing are proved, for all port addresses, to equal the explicit column->bank->row layout (hence bijective), injective on two symbolic addresses, never to use A10 as a column bit, and to walk columns, banks, rows in that order; the bank machine's use of the address on ACT/RD/WR is a postcondition of the real BankMachine.",
